@@ -57,19 +57,51 @@ def _await_sym_string(ctx, fut):
 def install_dispatch_overrides(ex, st):
     """returns dict of symbolic outcome variables"""
     sym = {}
-    outer = z3.BitVec('rule_matched', 64)      # Option<Option<..>>: 0 = no rule matched
-    inner = z3.BitVec('rule_allows', 64)       # 0 = matching rule is deny
-    ex.assume(st, z3.And(z3.ULT(outer, BV(2, 64)), z3.ULT(inner, BV(2, 64))))
-    hasfeat = z3.Bool('connector_has_feature')
-    sym.update(outer=outer, inner=inner, hasfeat=hasfeat)
+    # the rule list in force: NRULES rules, each with a symbolic filter verdict for this request and a symbolic target
+    # (None = deny, Some = an upstream); the REAL selection code (find_map / find+map / a loop, whatever the source says)
+    # walks this list
+    NRULES = 2
+    opt = ex.si.enums['Option']
+    verdicts = [z3.Bool('rule%d_filter_is_true' % i) for i in range(NRULES)]
+    allows = [z3.BitVec('rule%d_has_upstream' % i, 64) for i in range(NRULES)]
+    for a in allows:
+        ex.assume(st, z3.ULT(a, BV(2, 64)))
     conn_cell = st.alloc(Opaque('dyn Connector', 'selected-connector'))
     conn_name = Bytes.symbolic('selected_connector_name', 'str')
+    fields = ex.si.structs.get('Rule', ['target_name', 'target', 'filter_str', 'filter', 'stats'])
+    ti = fields.index('target') if 'target' in fields else 1
+    rule_cells = []
+    for i in range(NRULES):
+        tgt = Agg('Option', {}, allows[i], {1: {0: Ref(conn_cell, ())}}, opt)
+        rule_cells.append(st.alloc(Agg('Rule', {ti: tgt})))
+    rules_cell = st.alloc(SeqV.from_items([Ref(c, ()) for c in rule_cells], 'Arc<Rule>', 'vec'))
+    # first-match semantics, as terms: is any filter true, and does the FIRST true rule name an upstream
+    outer = z3.If(z3.Or(verdicts), BV(1, 64), BV(0, 64))
+    inner = allows[-1]
+    for i in range(NRULES - 2, -1, -1):
+        inner = z3.If(verdicts[i], allows[i], inner)
+    hasfeat = z3.Bool('connector_has_feature')
+    sym.update(outer=outer, inner=inner, hasfeat=hasfeat, verdicts=verdicts, allows=allows)
 
-    def find_map(ctx):
-        ctx.st.trace.append(('find_map',))
-        opt = ctx.ex.si.enums['Option']
-        inner_v = Agg('Option', {}, inner, {1: {0: Ref(conn_cell, ())}}, opt)
-        return Agg('Option', {}, outer, {1: {0: inner_v}}, opt)
+    def rules(ctx):
+        ctx.st.trace.append(('rules()',))
+        return Future('rules_guard', [])
+
+    @CA.awaiter('rules_guard')
+    def _aw_rules(ctx, fut):
+        return Ref(rules_cell, ())
+
+    def evaluate(ctx):
+        r = ctx.args[0]
+        seen = 0
+        while isinstance(r, Ref) and r.cell not in rule_cells and seen < 4:
+            r = ctx.ex.load(ctx.st, r.cell, r.path)
+            seen += 1
+        i = rule_cells.index(r.cell) if isinstance(r, Ref) and r.cell in rule_cells else None
+        ctx.st.trace.append(('evaluate', i))
+        if i is None:
+            return NotImplemented
+        return Bool(verdicts[i])
 
     def has_feature(ctx):
         ctx.st.trace.append(('has_feature',))
@@ -101,7 +133,8 @@ def install_dispatch_overrides(ex, st):
     def to_string(ctx):
         return Future('sym_string', [])
     ov = [
-        (r'as Iterator>::find_map::<', find_map),
+        (r'(?:^|::)GlobalState::rules$', rules),
+        (r'(?:^|::)Rule::evaluate$', evaluate),
         (r'<dyn Connector as Connector>::has_feature$', has_feature),
         (r'<dyn Connector as Connector>::connect', connect),
         (r'<dyn Connector as Connector>::name$', name),
@@ -128,7 +161,8 @@ def spec_process_request(ck):
     ex.benign_havoc = BENIGN
     st = State()
     sym = install_dispatch_overrides(ex, st)
-    ex.inputs = {'rule_matched': sym['outer'], 'rule_allows': sym['inner'], 'connector_has_feature': sym['hasfeat']}
+    ex.inputs = dict([('rule%d_filter_is_true' % i, v) for i, v in enumerate(sym['verdicts'])] + [('rule%d_has_upstream' % i, a) for i, a in enumerate(sym['allows'])] +
+                     [('connector_has_feature', sym['hasfeat'])])
     ctx = Ref(st.alloc(Opaque('tokio::sync::RwLock<context::Context>', 'ctx')), ())
     state = Ref(st.alloc(Opaque('GlobalState', 'state')), ())
     outs = run_async(ex, st, fn, [ctx, state])
@@ -200,7 +234,7 @@ def spec_process_request(ck):
     if n < 5:
         ck.add('dispatch/reachability', 'vacuous', 'only %d dispatcher outcomes explored (expected the 6 outcome classes)' % n)
     ck.absorb(ex, 'process_request', [o for o, _ in outs])
-    ck.bounds['process_request'] = ('one request; rule list abstracted to the symbolic result of find_map; symbolic outcomes of has_feature, '
+    ck.bounds['process_request'] = ('one request against a list of 2 rules (each: symbolic filter verdict, deny or upstream) walked by the real selection code; symbolic outcomes of has_feature, '
                                     'connect, copy_bidi; every await completes (no cancellation / interleaving)')
 
 
@@ -240,6 +274,14 @@ def spec_first_match_closure(ck):
         if s.status != 'returned':
             continue
         r = s.ret
+        if isinstance(r, Bool):
+            # the selection is written as find(predicate).map(..): the predicate is the filter verdict itself
+            ex.prove(s, 'C02/first-match/rule-selected-iff-its-filter-is-true', r.t == verdict)
+            ex.prove(s, 'C02/first-match/filter-evaluated-exactly-once', [e[0] for e in s.trace].count('evaluate') == 1)
+            ex.prove(s, 'C02/first-match/selection-depends-on-the-filter-only', 'has_feature' not in [e[0] for e in s.trace])
+            continue
+        if not isinstance(r, Agg) or r.discr is None:
+            continue
         d = C.BV(r.discr, 64) if isinstance(r.discr, int) else r.discr
         ex.prove(s, 'C02/first-match/rule-selected-iff-its-filter-is-true', (d == BV(1, 64)) == verdict)
         ex.prove(s, 'C02/first-match/filter-evaluated-exactly-once', [e[0] for e in s.trace].count('evaluate') == 1)
